@@ -443,7 +443,7 @@ static bool fz_key_has_huge_index(const char *key)
 #endif /* FZ_PROPERTY_TREE */
 
 /* ------------------------------------------------ structure-aware text mutator */
-#ifdef FZ_TEXT_MUTATOR
+#if defined(FZ_TEXT_MUTATOR) && !defined(FZ_STANDALONE)
 extern size_t LLVMFuzzerMutate(uint8_t *Data, size_t Size, size_t MaxSize);
 
 static uint32_t fzm_state;
@@ -663,5 +663,41 @@ static size_t fz_text_mutate(uint8_t *d, size_t size, size_t maxsize, unsigned s
     return nsize;
 }
 #endif /* FZ_TEXT_MUTATOR */
+
+/* ------------------------------------------ stand-alone driver (valgrind replay) */
+#ifdef FZ_STANDALONE
+int LLVMFuzzerTestOneInput(const uint8_t *data, size_t size);
+
+int main(int argc, char **argv)
+{
+    for (int i = 1; i < argc; ++i) {
+	FILE *fp = fopen(argv[i], "rb");
+	uint8_t *buf;
+	size_t n;
+
+	if (fp == NULL) {
+	    perror(argv[i]);
+	    return 2;
+	}
+	if ((buf = malloc(1 << 20)) == NULL)
+	    abort();
+	n = fread(buf, 1, 1 << 20, fp);
+	(void)fclose(fp);
+	fprintf(stderr, "Running: %s\n", argv[i]);
+	{
+	    /* exact-size copy so that memcheck sees reads past the end */
+	    uint8_t *exact = malloc(n ? n : 1);
+
+	    if (exact == NULL)
+		abort();
+	    memcpy(exact, buf, n);
+	    (void)LLVMFuzzerTestOneInput(exact, n);
+	    free(exact);
+	}
+	free(buf);
+    }
+    return 0;
+}
+#endif /* FZ_STANDALONE */
 
 #endif /* FZ_COMMON_H */
